@@ -366,13 +366,15 @@ def jobs(tier, seed):
     for h in ([1, 2, 3] if tier == "quick" else [1, 2, 3, 4]):
         for o in ORIENTATIONS:
             js.append(Job("R[h=%d,%s]" % (h, o), "h_real", {"h": h, "o": o}, {"logic": None, "max_paths": 100000}, weight=4 ** h / 4))
-    js.append(Job("conformance[test_hilbert indices]", "conf_hilbert", {"full": tier != "quick"}, {"direct": True}, weight=30))
+    for part in range(12):
+        js.append(Job("conformance[test_hilbert indices %d/12]" % part, "conf_hilbert", {"full": tier != "quick", "part": part, "parts": 12},
+                      {"direct": True}, weight=30))
     return js
 
 
-def conf_hilbert(seed=0, full=False):
+def conf_hilbert(seed=0, full=False, part=None, parts=1):
     from . import conformance
-    return conformance.hilbert(seed, full)
+    return conformance.hilbert(seed, full, part, parts)
 
 
 _PRE = """
